@@ -5,7 +5,7 @@ UNITS = ["http.c", "http-internal.h", "evutil.c"]
 FUNCTIONS = ["evhttp_make_header", "evhttp_make_header_request", "evhttp_make_header_response", "evhttp_add_header",
              "evhttp_header_is_valid_value", "evhttp_add_header_internal", "evhttp_response_code_", "evhttp_make_request",
              "evhttp_maybe_add_date_header", "evhttp_maybe_add_content_length_header", "evhttp_send_reply_chunk_with_cb", "evhttp_send_reply_end"]
-BOUNDS = 'head: caller header name <=4 / value <=6 (thorough 8) symbolic bytes, reason phrase / target <=6 (8), status 100..599, HTTP/1.0 and 1.1, 7 methods, body length 0..99999; acceptance: name <=4 (5), value / phrase / target <=6 (8) symbolic bytes; chunked reply: data length any size_t; format lemma: name 1..2, value 0..4 (thorough 0..6) bytes with enumerated lengths, reason / target <=6 (8)'
+BOUNDS = 'head: caller header name <=4 / value <=6 (thorough 8) symbolic bytes, reason phrase / target <=6 (8), status 100..599, HTTP/1.0 and 1.1, 7 methods, body length 0..99999; acceptance: name <=4 (5), value / phrase / target <=6 (8) symbolic bytes; chunked reply: data length any size_t; format lemma: name 1..2, value 3 (thorough 0..6) bytes with enumerated lengths, reason / target <=6 (8)'
 OUT = 'more than one caller header per message (the header loop is the same for each); automatic headers that depend on the request being answered (Connection: keep-alive / close, Content-Type default) are exercised only in their absent form; caller header names equal to Date/Content-Length/Transfer-Encoding (suppress the automatic ones); evhttp_send_error / evhttp_send_page_ HTML bodies (htmlescape is C29); Date text (evutil_date_rfc1123 stub); bytes actually reaching the socket (bufferevent, C17)'
 TEXT = "Three-part argument: (a) the real evhttp_make_header writes exactly start line, caller's header verbatim, documented automatic headers, CRLF, body (recording sink: sequence and arguments of evbuffer_add_printf/add/add_buffer); (b) what evhttp_add_header, evhttp_response_code_ and evhttp_make_request accept and store is 'safe' (token name; value whose CR/LF form single obs-folds; reason without control characters; non-empty target without control characters) and stored unchanged; (c) lemma decided on the reference alone: a head formatted from safe components is read back by the RFC 9112 reference recipient (lenient and CRLF-only) as exactly those components - no extra field, no early end of the header section. Plus (d) chunked replies: chunk-size equals the data length for every size_t, terminator written."
 NOTE = '5 defects with fix proposals (fixes/C26-*.diff): header value with two line breaks, non-token header names, reason phrase and request target with CR/LF, chunk size truncated to 32 bits. ISO C printf semantics (%s copies the string, %d/%x print the number) connect (a) and (c).'
@@ -51,7 +51,7 @@ def _obligations(tier):
                     defines=["VP_LEM_" + what, "VP_K=2", "VP_V=%d" % V], unwind=V + 36, timeout=900, mem_gb=6,
                     desc="format lemma: start line built from a safe %s (<=%d symbolic bytes) parses back to exactly it" % ("reason phrase" if what == "STATUS" else "target", V)))
     # field lemma: lengths enumerated (name 1..2, value 0..VL), bytes symbolic
-    sizes = [(1, 3), (2, 4)] if tier == "quick" else [(kl, vl) for kl in (1, 2) for vl in range(0, 7)]
+    sizes = [(1, 3), (2, 3)] if tier == "quick" else [(kl, vl) for kl in (1, 2) for vl in range(0, 7)]
     for (kl, vl) in sizes:
         if True:
             obs.append(dict(name="lemma_field_k%dv%d" % (kl, vl), harness="C26_lemma.c", entry="harness_lemma",
